@@ -60,6 +60,9 @@ pub struct History {
     /// compressed object, as writers that ignore generations do: the statement quantifies over all
     /// partial maps number -> {direct, compressed, free}, not only over generation-conforming ones
     pub relaxed_reuse: bool,
+    /// the whole history is an encrypted document (standard security handler, RC4, empty user
+    /// password): (revision, key bytes); the encryption dictionary is an object of the first section
+    pub encrypt: Option<(u8, usize)>,
 }
 
 fn filt_name(f: StmFilter) -> &'static str {
@@ -98,7 +101,7 @@ impl History {
                     "free_old_root": r.free_old_root, "reuse_xref_num": r.reuse_xref_num, "stale_member": r.stale_member, "length_ref": r.length_ref, "info": r.info})
             })
             .collect();
-        json!({"junk": hex(&self.junk), "nvals": self.nvals, "revs": revs, "relaxed_reuse": self.relaxed_reuse})
+        json!({"junk": hex(&self.junk), "nvals": self.nvals, "revs": revs, "relaxed_reuse": self.relaxed_reuse, "encrypt": self.encrypt.map(|(r, k)| json!([r, k]))})
     }
     pub fn from_json(j: &J) -> Option<History> {
         let mut revs = vec![];
@@ -136,7 +139,8 @@ impl History {
                 info: r.get("info").and_then(|x| x.as_bool()).unwrap_or(false),
             });
         }
-        Some(History { junk: unhex(j.get("junk")?.as_str()?)?, nvals: j.get("nvals")?.as_u64()? as u32, revs, relaxed_reuse: j.get("relaxed_reuse").and_then(|x| x.as_bool()).unwrap_or(false) })
+        Some(History { junk: unhex(j.get("junk")?.as_str()?)?, nvals: j.get("nvals")?.as_u64()? as u32, revs, relaxed_reuse: j.get("relaxed_reuse").and_then(|x| x.as_bool()).unwrap_or(false),
+            encrypt: j.get("encrypt").and_then(|e| Some((e.get(0)?.as_u64()? as u8, e.get(1)?.as_u64()? as usize))) })
     }
 }
 
@@ -152,6 +156,8 @@ enum St {
 /// objects only for numbers that never left generation 0); actions that would break well-formedness
 /// (freeing an undefined number, compressing a reused one) are adjusted, so that every sub-history
 /// produced by shrinking still compiles.
+const FILE_ID: &[u8] = b"0123456789abcdef";
+
 pub fn compile(h: &History) -> DocSpec {
     let mut next: u32 = 3 + h.nvals;
     let mut status: BTreeMap<u32, St> = BTreeMap::new();
@@ -159,6 +165,7 @@ pub fn compile(h: &History) -> DocSpec {
     let mut root: u32 = 1;
     let mut last_xref_stream_num: Option<u32> = None;
     let mut revisions = vec![];
+    let mut enc = h.encrypt.map(|(r, key_len)| crate::crypt_ref::EncSpec { r, key_len, user_pw: vec![], owner_pw: b"owner".to_vec(), p: -4, id0: FILE_ID.to_vec(), enc_obj: 0 });
     for (ri, r) in h.revs.iter().enumerate() {
         let mut slots: BTreeMap<u32, Slot> = BTreeMap::new();
         let mut mentions = r.mentions.clone();
@@ -254,7 +261,17 @@ pub fn compile(h: &History) -> DocSpec {
             XrefStyle::Classic { cuts: r.cuts.clone() }
         };
         let marker = format!("rev{}", ri).into_bytes();
-        let mut trailer = vec![("ID".to_string(), Val::Arr(vec![Val::Str(marker.clone()), Val::Str(marker.clone())]))];
+        // the first /ID string stays the same in every revision of an encrypted document (the key depends on it)
+        let id0 = if enc.is_some() { FILE_ID.to_vec() } else { marker.clone() };
+        let mut trailer = vec![("ID".to_string(), Val::Arr(vec![Val::Str(id0), Val::Str(marker.clone())]))];
+        if let Some(e) = &mut enc {
+            if ri == 0 {
+                e.enc_obj = next;
+                slots.insert(next, Slot::Direct { gen: 0, body: Body::Plain(e.dict()) });
+                next += 1;
+            }
+            trailer.push(("Encrypt".to_string(), Val::r(e.enc_obj)));
+        }
         if r.info {
             slots.insert(next, Slot::Direct { gen: 0, body: Body::Plain(Val::dict(vec![("Title", Val::Str(marker.clone()))])) });
             trailer.push(("Info".to_string(), Val::r(next)));
@@ -270,7 +287,7 @@ pub fn compile(h: &History) -> DocSpec {
             overrides: vec![],
         });
     }
-    DocSpec { junk: h.junk.clone(), revisions }
+    DocSpec { junk: h.junk.clone(), revisions, encrypt: enc }
 }
 
 fn catalog(pages: u32, marker: i64) -> Val {
@@ -356,7 +373,9 @@ pub fn gen_history(rng: &mut Rng, tier: Tier) -> History {
         });
     }
     let junk = if rng.chance(1, 5) { (0..rng.usize(64)).map(|_| *rng.pick(b"xyz \n012")).collect() } else { vec![] };
-    History { junk, nvals, revs, relaxed_reuse: rng.chance(1, 4) }
+    let relaxed_reuse = rng.chance(1, 4);
+    let encrypt = if rng.chance(1, 5) { Some(*rng.pick(&[(2u8, 5usize), (3, 5), (3, 16), (4, 16)])) } else { None };
+    History { junk, nvals, revs, relaxed_reuse, encrypt }
 }
 
 /// make every written value unique where its kind allows, so that a stale answer is attributable
@@ -436,7 +455,7 @@ pub fn run_history(h: &History) -> Outcome {
                 };
                 // the trailer is that of the newest section
                 let root_ok = Val::Ref(file.trailer.root.get_ref().get_inner().id as u32, 0) == rev.root;
-                let id_ok = file.trailer.id.first().map(|s| s.as_bytes() == format!("rev{}", k - 1).as_bytes()).unwrap_or(false);
+                let id_ok = file.trailer.id.last().map(|s| s.as_bytes() == format!("rev{}", k - 1).as_bytes()).unwrap_or(false);
                 if !root_ok || !id_ok || file.trailer.size as u32 != rev.size {
                     return Some(("the document trailer is not that of the newest section".into(), format!("after revision {} ({}): root {:?} id {:?} size {}", k, cfg, file.trailer.root.get_ref(), file.trailer.id, file.trailer.size)));
                 }
@@ -589,6 +608,14 @@ impl C02 {
             if progress {
                 continue;
             }
+            if best.encrypt.is_some() {
+                let mut c = best.clone();
+                c.encrypt = None;
+                if try_c(c, &mut best, &mut detail, &mut budget) {
+                    progress = true;
+                    continue;
+                }
+            }
             if best.relaxed_reuse {
                 let mut c = best.clone();
                 c.relaxed_reuse = false;
@@ -650,7 +677,7 @@ impl Check for C02 {
         CheckInfo {
             id: "C02",
             level: "exploration",
-            rule: "one run = one update history of 1-4 (quick) / 1-8 (thorough) revisions over 3-12 value object numbers written by the harness's independent writer (classic tables with arbitrary subsection splits; xref streams with arbitrary /Index splits, /W widths incl. width-0 type field, optional filter; objects direct, in one or two object streams with or without filter and trailing white space, freed with generation+1, reused; /Size growth; moving /Root), opened after every append (every crash point that keeps whole revisions) strict+uncached and tolerant+cached; every number below /Size is resolved and compared with the model 'newest mention wins'. Non-trivial = some revision overrides an earlier mention; distinct = hash of the history",
+            rule: "one run = one update history of 1-4 (quick) / 1-8 (thorough) revisions over 3-12 value object numbers written by the harness's independent writer (classic tables with arbitrary subsection splits; xref streams with arbitrary /Index splits, /W widths incl. width-0 type field, optional filter; objects direct, in one or two object streams with or without filter and trailing white space, freed with generation+1, reused; /Size growth; moving /Root; trailers with and without /Info; one history in five written RC4-encrypted (revision 2, 3 or 4 of the standard security handler, empty user password) by the harness's own MD5/RC4 implementation, which the self-test checks against the /O and /U entries of the two RC4 corpus files), opened after every append (every crash point that keeps whole revisions) strict+uncached and tolerant+cached; every number below /Size is resolved and compared with the model 'newest mention wins'; the trailer (/Root, /ID, /Size, /Info, presence of /Prev) must be that of the newest section. Non-trivial = some revision overrides an earlier mention; distinct = hash of the history",
             assumptions: vec![
                 "trusted base: the harness's writer; every written file is cross-checked by the harness's strict reader (offsets, section chain, newest-first merge) before it is used, disagreement is a harness error".into(),
                 "crash points are revision boundaries; a torn final append, hybrid-reference files and sections violating the generation rules are outside the statement".into(),
@@ -659,7 +686,7 @@ impl Check for C02 {
             components_real: vec!["pdf crate: backend (startxref, /Prev chain), xref table merge, classic and stream section parsers, object streams, resolve"],
             components_stub: vec![],
             per_run_timeout_s: 60,
-            required_probes: vec!["overrides", "moved_between_direct_compressed_free", "frees", "opens"],
+            required_probes: vec!["overrides", "moved_between_direct_compressed_free", "frees", "opens", "encrypted_histories"],
             exhaustive: false,
         }
     }
@@ -686,6 +713,9 @@ impl Check for C02 {
         rep.count("frees", out.frees);
         rep.count("opens", out.opens);
         rep.count("revisions", h.revs.len() as u64);
+        if h.encrypt.is_some() {
+            rep.count("encrypted_histories", 1);
+        }
         if let Some((sig, detail)) = out.violation {
             let (m, d) = self.shrink(&h, &sig);
             rep.violations.push(Violation { signature: sig, detail: if d.is_empty() { detail } else { d }, case: json!({"property": "C02", "history": m.to_json()}) });
